@@ -968,8 +968,12 @@ func checkC12(p *Prog, res *Result, tier string) {
 			scope[f] = true
 		}
 	}
-	// helper functions of pkg/backend called from the entry points
+	// helper functions of pkg/backend called directly from the entry points (one level, deterministic)
+	var roots []*ssa.Function
 	for f := range scope {
+		roots = append(roots, f)
+	}
+	for _, f := range roots {
 		for _, c := range callsIn(f) {
 			if sc := c.Common().StaticCallee(); sc != nil && sc.Pkg == p.ssaPkg("pkg/backend") && sc.Blocks != nil {
 				scope[sc] = true
